@@ -120,6 +120,15 @@ fn parse_stream_object(dict: Dictionary, lexer: &mut Lexer, r: &impl Resolve, ct
     })
 }
 
+/// An integer token. A value outside the i32 range is not an error: it is read as a real (the range of integers
+/// is an implementation limit, ISO 32000-1 Annex C; `Display for f32` writes large reals without a decimal point).
+fn integer_or_real(lexeme: &Substr) -> Result<Primitive> {
+    match lexeme.to::<i32>() {
+        Ok(i) => Ok(Primitive::Integer(i)),
+        Err(_) => Ok(Primitive::Number(t!(lexeme.to::<f32>()))),
+    }
+}
+
 #[inline]
 fn check(flags: ParseFlags, allowed: ParseFlags) -> Result<(), PdfError> {
     if !flags.intersects(allowed) {
@@ -183,13 +192,13 @@ fn _parse_with_lexer_ctx(lexer: &mut Lexer, r: &impl Resolve, ctx: Option<&Conte
                 check(flags, ParseFlags::INTEGER)?;
                 // We are probably in an array of numbers - it's not a reference anyway
                 lexer.set_pos(pos_bk); // (roll back the lexer first)
-                Primitive::Integer(t!(first_lexeme.to::<i32>()))
+                integer_or_real(&first_lexeme)?
             }
         } else {
             check(flags, ParseFlags::INTEGER)?;
             // It is but a number
             lexer.set_pos(pos_bk); // (roll back the lexer first)
-            Primitive::Integer(t!(first_lexeme.to::<i32>()))
+            integer_or_real(&first_lexeme)?
         }
     } else if let Some(s) = first_lexeme.real_number() {
         check(flags, ParseFlags::NUMBER)?;
